@@ -59,7 +59,9 @@ Definition content_ok_b (h : hview) (c : content) : bool :=
   (negb (h_fmt h =? 0) || forallb (fun v => spec_present_b h v || ext_key_b h v) (h_crit h)) &&
   (negb (h_fmt h =? 0) || tval_eqb (if k_scheme c =? 1 then h_st h else h_ast h) TAbsent) &&
   (k_alg c =? h_alg h) && negb (k_alg c =? 0) && chain_ok_b (k_alg c) (h_chain h) && list_eqb Z.eqb (k_chain c) (map c_raw (h_chain h)) &&
-  list_eqb attr_eqb (k_attrs c) (ext_attrs h) && (k_agent c =? h_agent h) && (k_ts c =? h_ts h).
+  list_eqb attr_eqb (k_attrs c) (ext_attrs h) && (k_agent c =? h_agent h) && (k_ts c =? h_ts h) &&
+  (k_cty c =? match h_cty h with Some x => x | None => 0 end) &&
+  ((h_fmt h =? 0) || match h_cty h with Some _ => true | None => false end).
 
 (* ---- Conformant (Proofs/Header.v) as a boolean ---- *)
 Fixpoint nodup_b (l : list label) : bool :=
